@@ -5,7 +5,9 @@ import (
 	"fmt"
 	"math"
 	"math/rand"
+	"runtime"
 	"strings"
+	"sync"
 	"unicode/utf8"
 
 	spb "google.golang.org/genproto/googleapis/rpc/status"
@@ -313,7 +315,7 @@ func check05(c *Case, o *Obs, rec Rec) (vs []viol, inconclusive string) {
 		preCls = ",after-SetTrailer"
 	}
 	add := func(obs, cls, what string) {
-		if preCls != "" {
+		if preCls != "" && obs != "call-not-delivered" {
 			// the metadata call is the structural class of these cases (codes
 			// and message shapes have their own cases without such a call)
 			cls = preCls[1:]
@@ -339,8 +341,15 @@ func check05(c *Case, o *Obs, rec Rec) (vs []viol, inconclusive string) {
 		return vs, c.Proto + ": client timed out (" + o.Err + ")"
 	}
 	if !rec.Ran {
-		// the request did not reach the handler: nothing about status fidelity was observed
-		return vs, fmt.Sprintf("%s: the scripted handler was never invoked (HTTP %d, grpc-status %+q %+q, transport %+q)", c.Proto, o.HTTP, o.CodeText, clip(o.Msg, 100), clip(o.Err, 100))
+		// A well-formed call to a registered method that the mux answered by
+		// itself (close frame, HTTP status, grpc-status) without invoking the
+		// handler: the handler's status cannot reach the client. Without such
+		// an answer nothing was observed.
+		if answered(o) {
+			add("call-not-delivered", "handler-never-invoked", fmt.Sprintf("the scripted handler was never invoked; the client was answered with HTTP %d, grpc-status %+q %+q, close code %d %+q", o.HTTP, o.CodeText, clip(o.Msg, 100), o.WSCode, clip(string(o.WSReason), 100)))
+			return vs, ""
+		}
+		return vs, fmt.Sprintf("%s: the scripted handler was never invoked (HTTP %d, transport %+q)", c.Proto, o.HTTP, clip(o.Err, 100))
 	}
 	if o.Err != "" && !(c.Proto == "ws") {
 		add("no-response", gen, fmt.Sprintf("client got no usable response: %s", ascii(clip(o.Err, 200))))
@@ -532,6 +541,11 @@ func check05(c *Case, o *Obs, rec Rec) (vs []viol, inconclusive string) {
 	return vs, ""
 }
 
+// answered reports that the client received a definite protocol-level answer.
+func answered(o *Obs) bool {
+	return o.Err == "" && !o.Timeout && (o.WSClose || o.HasStatus || o.HTTP >= 400)
+}
+
 func framingClass(c *Case, o *Obs) string {
 	if c.webText() {
 		return "text-mode-body"
@@ -575,6 +589,7 @@ type c05Runner struct {
 	r       *mon.Run
 	env     *Env
 	sampled map[string]bool
+	queue   []c05Job
 }
 
 func protoFamily(p string) string {
@@ -582,35 +597,44 @@ func protoFamily(p string) string {
 	return p
 }
 
+// exec queues a case; flush executes the queue.
 func (g *c05Runner) exec(c *Case, label string) {
-	o, rec := g.env.run(c)
-	vs, inc := check05(c, o, rec)
-	r := g.r
-	r.Eval(1)
-	r.Count("rpcs_"+protoFamily(c.Proto), 1)
-	if c.Target == "proxy" {
-		r.Count("rpcs_to_proxied_backend", 1)
-	}
-	if rec.Ran {
-		r.Count("handler_invocations", 1)
-	}
-	if len(o.Panics) > 0 {
-		r.Count("server_panics_observed", len(o.Panics))
-	}
+	g.queue = append(g.queue, c05Job{c, label})
+}
+
+type c05Job struct {
+	c     *Case
+	label string
+}
+
+type c05Outcome struct {
+	vs       []viol
+	inc      string
+	ran      bool
+	panics   int
+	obsKind  string // counter of what the client decoded
+	distinct string
+	sample   map[string]any
+}
+
+func runC05Job(env *Env, j c05Job) c05Outcome {
+	c := j.c
+	o, rec := env.run(c)
+	var out c05Outcome
+	out.vs, out.inc = check05(c, o, rec)
+	out.ran = rec.Ran
+	out.panics = len(o.Panics)
 	switch {
 	case o.WSClose:
-		r.Count("ws_close_frames_observed", 1)
+		out.obsKind = "ws_close_frames_observed"
 	case o.TrailersOnly:
-		r.Count("grpc_trailers_only_responses", 1)
+		out.obsKind = "grpc_trailers_only_responses"
 	case o.HasStatus:
-		r.Count("grpc_statuses_decoded", 1)
+		out.obsKind = "grpc_statuses_decoded"
 	case rec.Ran && c.Script.Code != 0 && rec.Sent == 0 && o.HTTP != 0:
-		r.Count("http_error_bodies_observed", 1)
+		out.obsKind = "http_error_bodies_observed"
 	}
-	if inc != "" {
-		r.Inconclusive(inc)
-	}
-	if rec.Ran && inc == "" {
+	if rec.Ran && out.inc == "" {
 		cc := "ok"
 		switch {
 		case c.Script.Code > 17:
@@ -620,21 +644,89 @@ func (g *c05Runner) exec(c *Case, label string) {
 		case c.Script.Code > 0:
 			cc = "code-in-range"
 		}
-		r.Distinct(fmt.Sprintf("%s%s/%s/%s/after=%d/%s/%s/details=%v/%s", c.Target+":", protoFamily(c.Proto), c.Codec, c.Method, c.Script.Replies, cc, msgShape(c.Script.Msg)+sizeClass(c.Script.Msg), c.Script.Details, c.Kind+"/pre="+c.Script.Pre+"/hdr="+fmt.Sprint(len(c.Script.Hdr) > 0, c.Script.SendHdr, len(c.Script.Trl) > 0)))
+		out.distinct = fmt.Sprintf("%s%s/%s/%s/after=%d/%s/%s/details=%v/%s", c.Target+":", protoFamily(c.Proto), c.Codec, c.Method, c.Script.Replies, cc, msgShape(c.Script.Msg)+sizeClass(c.Script.Msg), c.Script.Details, c.Kind+"/pre="+c.Script.Pre+"/hdr="+fmt.Sprint(len(c.Script.Hdr) > 0, c.Script.SendHdr, len(c.Script.Trl) > 0))
 	}
-	for _, v := range vs {
-		r.Violate(v.key, v.what, c)
+	if c.Script.Code == 5 && j.label == "pct-middle" && c.Script.Details && c.Script.Replies <= 1 {
+		out.sample = map[string]any{"proto": c.Proto, "target": c.Target, "codec": c.Codec, "method": c.Method, "code": c.Script.Code, "msg": c.Script.Msg, "replies_before_status": c.Script.Replies,
+			"observed": map[string]any{"http": o.HTTP, "grpc_status": o.CodeText, "code": o.Code, "msg": clip(o.Msg, 60), "replies": o.Replies, "ws_close_code": o.WSCode, "panics": len(o.Panics)}}
 	}
-	if fam := protoFamily(c.Proto); r.SampleN() < 6 && !g.sampled[fam] && c.Script.Code == 5 && label == "pct-middle" && c.Script.Details && c.Script.Replies <= 1 {
-		g.sampled[fam] = true
-		r.Sample(map[string]any{"proto": c.Proto, "codec": c.Codec, "method": c.Method, "code": c.Script.Code, "msg": c.Script.Msg, "replies_before_status": c.Script.Replies,
-			"observed": map[string]any{"http": o.HTTP, "grpc_status": o.CodeText, "code": o.Code, "msg": clip(o.Msg, 60), "replies": o.Replies, "ws_close_code": o.WSCode, "panics": len(o.Panics)}})
+	return out
+}
+
+// flush executes the queued cases on a few independent environments (each
+// with its own muxes, servers, back-end, clients and panic log, so that
+// observations never mix) and then applies the outcomes in queue order: the
+// evidence and the replay case kept per finding key do not depend on
+// scheduling.
+func (g *c05Runner) flush() {
+	r := g.r
+	workers := runtime.NumCPU() / 2
+	if workers > 6 {
+		workers = 6
 	}
+	if workers < 1 {
+		workers = 1
+	}
+	if len(g.queue) < 64 {
+		workers = 1
+	}
+	envs := []*Env{g.env}
+	for len(envs) < workers {
+		e, err := newEnv()
+		if err != nil {
+			break
+		}
+		defer e.Close()
+		envs = append(envs, e)
+	}
+	outs := make([]c05Outcome, len(g.queue))
+	var wg sync.WaitGroup
+	for w := range envs {
+		wg.Add(1)
+		go func(w int) {
+			defer wg.Done()
+			for i := w; i < len(g.queue); i += len(envs) {
+				outs[i] = runC05Job(envs[w], g.queue[i])
+			}
+		}(w)
+	}
+	wg.Wait()
+	for i, out := range outs {
+		c := g.queue[i].c
+		r.Eval(1)
+		r.Count("rpcs_"+protoFamily(c.Proto), 1)
+		if c.Target == "proxy" {
+			r.Count("rpcs_to_proxied_backend", 1)
+		}
+		if out.ran {
+			r.Count("handler_invocations", 1)
+		}
+		if out.panics > 0 {
+			r.Count("server_panics_observed", out.panics)
+		}
+		if out.obsKind != "" {
+			r.Count(out.obsKind, 1)
+		}
+		if out.inc != "" {
+			r.Inconclusive(out.inc)
+		}
+		if out.distinct != "" {
+			r.Distinct(out.distinct)
+		}
+		for _, v := range out.vs {
+			r.Violate(v.key, v.what, c)
+		}
+		if fam := c.Target + ":" + protoFamily(c.Proto); out.sample != nil && r.SampleN() < 6 && !g.sampled[fam] {
+			g.sampled[fam] = true
+			r.Sample(out.sample)
+		}
+	}
+	g.queue = nil
 }
 
 // RunC05 is the status / error fidelity check.
 func RunC05(r *mon.Run) {
-	r.Rule = "a scripted handler behind a real Mux returns status (code, message, optional 2 details) before any reply or after 1 / 3 replies; one client per protocol observes the outcome: HTTP JSON/protobuf and Twirp (in-process and HTTP/1 socket), grpc-go over h2c, raw gRPC frames in-process and over h2c, gRPC-web binary/text (in-process and HTTP/1 socket), WebSocket (socket). Cases = (all 22 codes x 3 base messages) + (2-3 codes x every message of the message set: empty, ASCII, single bytes embedded in text, '%' at start/middle/end, multi-byte tails, 1 KiB, 70 KiB, 123/124-byte close-frame boundary, seeded random mixes of ASCII / '%' / control / multi-byte pieces), each with and without details, on every protocol x codec x method x reply-count variant, plus a class where the handler calls SetHeader / SendHeader / SetTrailer with custom metadata at entry or right before it returns the status, plus a small class where the call's deadline has expired before the handler returns. Every class runs against the handler registered on the mux and (quick: reduced matrix) against the same handler on a real grpc.Server back-end that a second mux proxies through RegisterConn (codes up to 2^31-1, no WebSocket). An execution is non-trivial when the scripted handler ran; distinct = (target, protocol, codec, method, replies before status, code class, message shape, details?)"
+	r.Rule = "a scripted handler behind a real Mux returns status (code, message, optional 2 details) before any reply or after 1 / 3 replies; one client per protocol observes the outcome: HTTP JSON/protobuf and Twirp (in-process and HTTP/1 socket), grpc-go over h2c, raw gRPC frames in-process and over h2c, gRPC-web binary/text (in-process and HTTP/1 socket), WebSocket (socket). Cases = (all 22 codes x 3 base messages) + (2-3 codes x every message of the message set: empty, ASCII, single bytes embedded in text, '%' at start/middle/end, multi-byte tails, 1 KiB, 70 KiB, 123/124-byte close-frame boundary, seeded random mixes of ASCII / '%' / control / multi-byte pieces), each with and without details, on every protocol x codec x method x reply-count variant, plus a class where the handler calls SetHeader / SendHeader / SetTrailer with custom metadata at entry or right before it returns the status, plus a small class where the call's deadline has expired before the handler returns. Every class runs against the handler registered on the mux and (quick: reduced matrix) against the same handler on a real grpc.Server back-end that a second mux proxies through RegisterConn (codes up to 2^31-1). An execution is non-trivial when the scripted handler ran; distinct = (target, protocol, codec, method, replies before status, code class, message shape, details?)"
 	r.Floor = 150
 	env, err := newEnv()
 	if err != nil {
@@ -662,13 +754,7 @@ func RunC05(r *mon.Run) {
 	for _, target := range []string{"", "proxy"} {
 		reduced := target == "proxy" && !r.Thorough()
 		for _, v := range c05Variants(r.Thorough()) {
-			if reduced && (sockTwin(v.proto) || v.codec == "json" && v.proto != "http" && v.proto != "twirp" && v.proto != "grpc") {
-				continue
-			}
-			if target == "proxy" && v.proto == "ws" {
-				// a WebSocket call to a proxied method never reaches the back-end:
-				// the upgrade's connection headers are forwarded as metadata and the
-				// back-end resets the stream (outside this property: no handler runs)
+			if reduced && sockTwin(v.proto) {
 				continue
 			}
 			one := func(code uint32, m msgIn, det bool) {
@@ -687,11 +773,8 @@ func RunC05(r *mon.Run) {
 					if code == 0 && m.label != "ascii" {
 						continue // success: the message is not part of the outcome
 					}
-					if reduced && code != 0 && m.label != "pct-middle" {
-						continue
-					}
 					for _, det := range []bool{false, true} {
-						if code == 0 && det || reduced && det != (code%2 == 1) {
+						if code == 0 && det {
 							continue
 						}
 						one(code, m, det)
@@ -700,7 +783,7 @@ func RunC05(r *mon.Run) {
 			}
 			for ci, code := range sweepCodes {
 				for _, m := range msgs {
-					if reduced && (ci > 0 && code != 1 || strings.HasPrefix(m.label, "byte-") && m.label != "byte-0a" && m.label != "byte-7f") {
+					if reduced && ci > 0 && code != 1 {
 						continue
 					}
 					heavy := len(m.s) > 4096
@@ -743,11 +826,11 @@ func RunC05(r *mon.Run) {
 	custom := []KV{{K: "x-c05", V: [][]byte{[]byte("v1"), []byte("v 2")}}, {K: "x-c05-bin", V: [][]byte{{0, 0xff, 0xfb, '%'}}}}
 	for _, target := range []string{"", "proxy"} {
 		for _, v := range c05Variants(r.Thorough()) {
-			if target == "proxy" && (!r.Thorough() && sockTwin(v.proto) || v.proto == "ws") {
+			if target == "proxy" && !r.Thorough() && sockTwin(v.proto) {
 				continue
 			}
-			for ci, code := range preCodes {
-				if target == "proxy" && (code > math.MaxInt32 || !r.Thorough() && ci > 1) {
+			for _, code := range preCodes {
+				if target == "proxy" && code > math.MaxInt32 {
 					continue
 				}
 				for _, op := range []string{"set", "send", "trl"} {
@@ -789,6 +872,9 @@ func RunC05(r *mon.Run) {
 			}
 		}
 	}
+
+	g.flush()
+	r.Set("parallel_environments", "cases are executed on up to 6 independent environments; outcomes are applied in case-list order")
 
 	r.Assume("expected values are pinned tables (google/rpc/code.proto HTTP mapping, Twirp spec names, larking's documented WebSocket close codes) and the status the harness handler itself returned; decoders are protojson/proto, grpc-go's client, the harness frame parser and percent-decoder")
 	r.Assume("status messages are valid UTF-8 without leading/trailing white space (HTTP header transport may trim it); code 0 means the handler returns nil")
